@@ -586,8 +586,9 @@ static int asyncClient_calculateRequestId(KSI_AsyncClient *c, KSI_uint64_t *id, 
 	}
 
 	do {
-		/* Check if the cache is full. */
-		if ((c->options[KSI_ASYNC_OPT_REQUEST_CACHE_SIZE]) == (c->pending + c->received + 1)) {
+		/* Check if the cache is full. A pending configuration request is counted but takes no slot, so the
+		 * number of outstanding requests may exceed the number of slots: do not search a cache that has no free slot. */
+		if ((c->options[KSI_ASYNC_OPT_REQUEST_CACHE_SIZE]) <= (c->pending + c->received + 1)) {
 			res = KSI_ASYNC_REQUEST_CACHE_FULL;
 			goto cleanup;
 		}
